@@ -99,6 +99,9 @@ pub fn base_prefix(region: &str, otaa: bool, base: &str) -> Vec<Ev> {
     v
 }
 
+/// `Case::draw` value that asks for the ADR back-off walk instead of two uplinks with an enumerated draw (nb front-end).
+const BACKOFF_WALK: u32 = 1000;
+
 fn snap_hash(s: &VerifMac) -> u64 {
     let mut s = *s;
     if let VerifMacState::Joined(ref mut j) = s.state {
@@ -209,6 +212,45 @@ fn eval_nb(c: &Case) -> (Vec<(String, String)>, Option<u64>) {
         }
     }
     let h = snap_hash(&core.snap());
+    if c.draw == Some(BACKOFF_WALK) {
+        // ADR back-off from whatever the command left behind, down to the lowest rate: the count of unanswered uplinks is
+        // pre-loaded (through the session's serde form) to one short of every back-off step in turn
+        let mut last_dr = core.snap().data_rate;
+        let mut still = 0;
+        for step in 0..16u32 {
+            let Some(val) = core.dev.get_session().and_then(|s| serde_json::to_value(s).ok()) else { break };
+            let mut val = val;
+            val["adr_ack_cnt"] = json!(95 + 32 * step);
+            let Ok(s2) = serde_json::from_value::<lorawan_device::mac::Session>(val) else { break };
+            core.dev.set_session(s2);
+            for _ in 0..2 {
+                let ms = core.apply(&Ev::Cycle { confirmed: false, port: 1, len: 1, rx1: None, rx2: None });
+                for m in &ms {
+                    if let Resp::Panic(p) = &m.resp {
+                        let (s, w) = classify_at(p, "nb", &format!("adr-backoff-after-{name}"), &c.dev.region, &m.before);
+                        v.push((s, format!("{w}; back-off step {step} after command {:?}", c.cmd.as_ref().map(|x| crate::ctx::hex(&x.bytes)))));
+                        return (v, Some(h));
+                    }
+                }
+                let last = ms.last().map(|m| m.resp.clone());
+                if !matches!(last, Some(Resp::RxComplete) | Some(Resp::NoAck) | Some(Resp::SessionExpired)) {
+                    v.push((format!("C04|nb|cannot-transmit-after|adr-backoff-after-{name}"), format!("uplink at back-off step {step} ended with {last:?}")));
+                    return (v, Some(h));
+                }
+            }
+            let dr = core.snap().data_rate;
+            if dr == last_dr {
+                still += 1;
+                if still >= 2 {
+                    break;
+                }
+            } else {
+                still = 0;
+            }
+            last_dr = dr;
+        }
+        return (v, Some(h));
+    }
     if let Some(d) = c.draw {
         core.apply(&Ev::Rng(vec![d]));
         for k in 0..2 {
@@ -693,6 +735,10 @@ pub fn run(tier: Tier, replay: Option<&str>) {
                                 record(&Case { draw: Some(d), ..c.clone() });
                                 followups.fetch_add(1, Ordering::Relaxed);
                             }
+                            if front == "nb" {
+                                record(&Case { draw: Some(BACKOFF_WALK), ..c.clone() });
+                                followups.fetch_add(1, Ordering::Relaxed);
+                            }
                         }
                     });
                     // JoinAccept contents (OTAA only, from the unjoined device and as a re-join)
@@ -705,6 +751,10 @@ pub fn run(tier: Tier, replay: Option<&str>) {
                             {
                                 for d in 0..64u32 {
                                     record(&Case { draw: Some(d), ..c.clone() });
+                                    followups.fetch_add(1, Ordering::Relaxed);
+                                }
+                                if front == "nb" {
+                                    record(&Case { draw: Some(BACKOFF_WALK), ..c.clone() });
                                     followups.fetch_add(1, Ordering::Relaxed);
                                 }
                             }
@@ -821,7 +871,7 @@ pub fn run(tier: Tier, replay: Option<&str>) {
         ],
         "evaluations": ctx.evals(),
         "distinct_nontrivial": states + seen.lock().unwrap().len() as u64,
-        "rule": "Layer A: for every region x {ABP,OTAA} x base state x front-end, one authentic downlink (FOpts and port 0) carrying one command with its full value domain (LinkADRReq DR x TXPower x ChMaskCntl x mask patterns x NbTrans x RFU bit and 2-3 command blocks; RXParamSetupReq all 256 DLSettings x frequency set; RXTimingSetupReq / TXParamSetupReq / DutyCycleReq all 256; NewChannelReq index x frequency set x DrRange bytes; DlChannelReq; every CID 0..255 with 0..5 trailing bytes) or one JoinAccept (all 256 DLSettings x RxDelay x CFList variants); every distinct resulting MAC snapshot is followed by two uplinks with the first RNG draw enumerated over 0..63. Layer B: BFS over histories (uplinks, commands that delete channels / shrink the mask / change DR, junk and oversized frames, set_datarate for region-defined rates, set_adr, joins with minimal CFLists, (Class C) joins during which the JoinAccept or junk is heard by the continuous reception between the request and its windows, ADR back-off from a pre-loaded counter). Layer B also on boards with 1000 / 2500 / 6000 ms receive windows, window offsets and a clock next to its wrap. Layer C: runs of 150 (thorough: 400) consecutive unanswered join attempts on the fixed plans for each join-bias setting. states = distinct post-command snapshots (A) + distinct canonical states (B)",
+        "rule": "Layer A: for every region x {ABP,OTAA} x base state x front-end, one authentic downlink (FOpts and port 0) carrying one command with its full value domain (LinkADRReq DR x TXPower x ChMaskCntl x mask patterns x NbTrans x RFU bit and 2-3 command blocks; RXParamSetupReq all 256 DLSettings x frequency set; RXTimingSetupReq / TXParamSetupReq / DutyCycleReq all 256; NewChannelReq index x frequency set x DrRange bytes; DlChannelReq; every CID 0..255 with 0..5 trailing bytes) or one JoinAccept (all 256 DLSettings x RxDelay x CFList variants); every distinct resulting MAC snapshot is followed by two uplinks with the first RNG draw enumerated over 0..63 and (nb) by a walk through every ADR back-off step down to the lowest data rate (count of unanswered uplinks pre-loaded to one short of each step). Layer B: BFS over histories (uplinks, commands that delete channels / shrink the mask / change DR, junk and oversized frames, set_datarate for region-defined rates, set_adr, joins with minimal CFLists, (Class C) joins during which the JoinAccept or junk is heard by the continuous reception between the request and its windows, ADR back-off from a pre-loaded counter). Layer B also on boards with 1000 / 2500 / 6000 ms receive windows, window offsets and a clock next to its wrap. Layer C: runs of 150 (thorough: 400) consecutive unanswered join attempts on the fixed plans for each join-bias setting. states = distinct post-command snapshots (A) + distinct canonical states (B)",
         "layer_a_cases": cases_a.load(Ordering::Relaxed),
         "layer_a_followups": followups.load(Ordering::Relaxed),
         "layer_b_depth": depth,
